@@ -276,7 +276,7 @@ def attemptDeletion (r : Nat) (s : State) : List Nat × State :=
   let m := s.obj r
   let pre : Option (MoveObj × State) :=
     match m.toDelete with
-    | some _ => some (m, s)
+    | some l => if (uniqueLabels m.labels).contains l then some (m, s) else none   -- a pre-selected label must be eligible
     | none =>
       let u := uniqueLabels m.labels
       if u.isEmpty then none
